@@ -36,7 +36,7 @@ def obligations(tier):
     obls = [CH("family_latest", H, "family", t, functions=F[1:2], bounds="three additions, modified texts from a 3-element table whose string order differs from the order of the instants (symbolic indices)")]
     for p in range(4):
         obls.append(CH("histories3_p%d" % p, H, "hist3", t, mode="E1s", functions=F, stubs=[FSS], env={"VERIF_PART": str(p)},
-                       bounds="first add of id %d; 3 adds from 4 ids x 3 versions; input form rotates over object/dict/list/bundle/JSON text" % p))
+                       bounds="first add of id %d; 3 adds from 4 ids x 3 versions; input form rotates over object/dict/list/bundle/JSON text; the same stores answer every lookup and 5 queries before the first and after every addition; 3 starting layouts (nothing, empty type directories, an object in the old flat layout)" % p))
     for p in range(5):
         obls.append(CH("histories2_forms_p%d" % p, H, "hist2_forms", t, mode="E1s", functions=F, stubs=[FSS], env={"VERIF_PART": str(p)},
                        bounds="first add in form %d; 2 adds from 4 ids x 3 versions x 5 forms; unversioned object present; with/without save+load" % p))
